@@ -664,6 +664,7 @@ func (x *Exec) loopHeader(st *State, fr *Frame, h *ssa.BasicBlock, pred *ssa.Bas
 		rec := st.loops[ri]
 		setPhis(incoming)
 		env := x.frameEnv(st, fr)
+		env.traceBase = rec.traceLen // nemitted()/evis()/count() in invariants speak about this iteration
 		if spec != nil {
 			for i, inv := range spec.Inv {
 				lbl := inv.Label
@@ -724,6 +725,7 @@ func (x *Exec) loopHeader(st *State, fr *Frame, h *ssa.BasicBlock, pred *ssa.Bas
 	// entry from outside
 	setPhis(incoming)
 	env := x.frameEnv(st, fr)
+	env.traceBase = len(st.trace)
 	if spec != nil {
 		for i, inv := range spec.Inv {
 			lbl := inv.Label
@@ -792,6 +794,7 @@ func (x *Exec) loopHeader(st *State, fr *Frame, h *ssa.BasicBlock, pred *ssa.Bas
 		st.alloc = na
 	}
 	env = x.frameEnv(st, fr)
+	env.traceBase = len(st.trace)
 	rec := loopRec{header: h.Index, frameID: fr.id, traceLen: len(st.trace), heap: st.heapCopy(), alloc: st.alloc}
 	if spec != nil {
 		for _, inv := range spec.Inv {
